@@ -485,7 +485,19 @@ class RealRun:
         return events
 
     @staticmethod
+    def _val(v):
+        """JSON value -> the object handed to resolve(): ["<exc>", name, msg] stands for an exception INSTANCE
+        used as data (fut.resolve(TimeoutError("..."))), everything else is itself."""
+        if isinstance(v, list) and len(v) == 3 and v[0] == "<exc>":
+            import builtins
+
+            return getattr(builtins, v[1])(v[2])
+        return v
+
+    @staticmethod
     def _norm(v):
+        if isinstance(v, BaseException):
+            return ["<exc>", type(v).__name__, str(v.args[0]) if v.args else ""]
         if isinstance(v, tuple):
             return [RealRun._norm(x) for x in v]
         if isinstance(v, list):
@@ -497,7 +509,7 @@ class RealRun:
             path = f"{prefix}{idx}"
             op = stmt["op"]
             if op == "resolve":
-                self._fut(stmt["f"]).resolve(stmt["v"])
+                self._fut(stmt["f"]).resolve(self._val(stmt["v"]))
             elif op == "cancel":
                 self._cancel(stmt["h"])
             elif op == "add_hook":
@@ -551,7 +563,7 @@ class RealRun:
                 if k == "emit":
                     run._cancel(action.get("cancel"))
                     for fname, v in action.get("resolve") or []:
-                        run._fut(fname).resolve(v)
+                        run._fut(fname).resolve(run._val(v))
                     for h in action.get("add_hooks") or []:
                         event.add_completion_hook(run._mk_hook(h))
                     return run._style(run._make_events(action.get("events")), action.get("style", "list"))
